@@ -131,6 +131,30 @@ func c16CheckEncoded(r *vhlib.Run, payload []byte, mode meta.FinalMode, parts []
 			r.Violate("roundtrip", o.String(), replay)
 		}
 	}
+	// ... and for every way the caller sizes its Read buffers (a header read with
+	// io.ReadFull, byte-at-a-time parsing): small fixed sizes and a random schedule
+	for _, bs := range []int{1, 3, 7, 0} {
+		mr := meta.NewReader(bytes.NewReader(enc))
+		var got []byte
+		var rerr error
+		for steps := 0; steps < 4*len(payload)+64; steps++ {
+			n := bs
+			if n == 0 {
+				n = 1 + r.Rng.Intn(12)
+			}
+			buf := make([]byte, n)
+			k, e := mr.Read(buf)
+			got = append(got, buf[:k]...)
+			if e != nil {
+				rerr = e
+				break
+			}
+		}
+		if rerr != io.EOF || !bytes.Equal(got, payload) || mr.FinalMode != mode {
+			r.Violate("roundtrip", fmt.Sprintf("Read buffers of %d bytes (0 = random 1..12): %d of %d payload bytes, err=%v, mode=%d", bs, len(got), len(payload), rerr, int(mr.FinalMode)), replay)
+			break
+		}
+	}
 	// oracle: silent in DEFLATE
 	if mode == meta.FinalStream {
 		out, _, used, err := stdInflate(enc)
